@@ -24,7 +24,19 @@ def run(pid, tier):
 
     def validate(trace, tag):
         nonlocal total, accepted, states, transitions
+        # what the code did wrong while the slot states were being prepared (an oversize reply is used to park a slot in
+        # RxBusy: it must be refused)
+        if os.path.exists(trace + ".prep"):
+            obs = [json.loads(l) for l in open(trace + ".prep") if l.strip()]
+            if obs:
+                rp = lib.write_replay(pid, f"{tag}-prep-{obs[0]['id']}", dict(
+                    property=pid, engine="rxtriage", tier=tier, seed=lib.seed(), kind="preparation", case=obs[0],
+                    violated=dict(errors=obs[0]["what"]), signature=dict(kind=obs[0]["what"])))
+                verdict.violation((obs[0]["what"],), rp,
+                                  f"{tag}: {len(obs)} cases: a response longer than the slot's buffer was accepted ({obs[0]['id']})")
         n = sum(1 for _ in open(trace))
+        if n == 0:
+            return
         cfg = lib.cfg_text(spec="TraceSpec", constants=dict(NSlots=1, TargetSet='{"Sent"}', Cap=40),
                            postcondition="Report")
         d = os.path.join(wd, f"tv-{tag}")
